@@ -162,6 +162,70 @@ class SeededApplication:
         return res
 
 
+    # ---- interprocedural: entry method -> helpers called on self ------------------------------------------------
+    def summarize(self, C: ClassInfo, fi: FuncInfo, member: Member, needed, assume, depth=0, _stack=()):
+        """-> (exposed, must_inject): ``exposed`` = [(function, line, path text)] applications of the member that are not
+        preceded, inside this function (helpers included), by an injection of a per-sample generator on every path;
+        ``must_inject`` = every normal-return path of the function injects such a generator into the member."""
+        key = (C.qualname, fi.qualname, fi.module.name, str(member))
+        if key in _stack or depth > 4:
+            return [], False
+        fa = fa_of(self.prog, fi).prune(assume)
+        removed, narrow = self.fwd.guard_edges(fa, member, needed)
+        alias_members = [Member(lst, "elem") for lst, attrs in self.own.types.aliases(C).items()
+                         if member.kind == "attr" and member.attr in attrs]
+        for am in alias_members:
+            r2, _ = self.fwd.guard_edges(fa, am, needed)
+            removed += r2
+        if removed:
+            fa = fa.with_cfg(fa.cfg.pruned(removed)).prune(assume)
+        cfg = fa.cfg
+        gen_terms = {fa.sym.term(call, n) for n, call, seed in generator_constructions(fa)}
+
+        def arg_is_generator(fa_, n, call, fi_):
+            if not call.args and not call.keywords:
+                return False
+            a = call.args[0] if call.args else call.keywords[0].value
+            return fa_.sym.term(a, n) in gen_terms
+
+        inject, _ = self.fwd.forwarding_nodes(C, fi, fa, member, {"set_rng"}, needed, arg_is_generator, 0)
+        inject = set(inject)
+        # a complete forwarding loop over a list that holds this member (self.transforms = [self.a, self.b, ...])
+        for am in alias_members:
+            nodes, _ = self.fwd.forwarding_nodes(C, fi, fa, am, {"set_rng"}, needed, arg_is_generator, 0)
+            for n, nd in cfg.nodes.items():
+                if nd.kind == "next" and self.fwd._loop_source(fa, n, _lv(nd.owner)) == am.attr:
+                    body = cfg.out_edge(n, True)
+                    if body is not None and (body in nodes or not cfg.reachable(body, n, avoid=nodes)):
+                        inject.add(n)
+        applies = [(n, None) for n in self.application_sites(fa, member)]
+        for n, call in fa.calls():
+            f = call.func
+            if isinstance(f, ast.Attribute) and isinstance(f.value, ast.Name) and f.value.id == fa.self_name:
+                tgt = C.lookup(f.attr)
+                if tgt is None or tgt is fi or f.attr in ("set_rng",):
+                    continue
+                exp, must = self.summarize(C, tgt, member, needed, assume, depth + 1, _stack + (key,))
+                if must:
+                    inject.add(n)
+                for e in exp:
+                    applies.append((n, e))
+        exposed = []
+        for n, inner in applies:
+            if n in inject and inner is not None:
+                # the helper both injects (on every path) and has an exposed application: the exposure is the helper's
+                pass
+            if cfg.must_pass(inject - {n}, src=cfg.entry, dst=n):
+                continue
+            if inner is None:
+                p = cfg.path_avoiding(cfg.entry, n, avoid=inject)
+                exposed.append((fi.qualname, cfg.nodes[n].lineno, f"{fi.qualname} lines {_lines(cfg, p)}"))
+            else:
+                exposed.append((inner[0], inner[1], f"{fi.qualname} line {cfg.nodes[n].lineno} -> {inner[2]}"))
+        must_inject = bool(inject) and cfg.must_pass(inject)
+        return exposed, must_inject
+
+
 def _lv(loop: ast.For) -> str:
     tgt = loop.target
     if isinstance(tgt, ast.Name):
